@@ -8,7 +8,7 @@ DSPATH = "tough::datastore::DatastorePath::path"
 
 
 def run(chk, prog):
-    chk.rules_live = ["R1", "R2"]
+    chk.rules_live = ["R1", "R2", "R3", "R4"]
     chk.explanation = (
         "Who-may-write rules over the resolved callees of datastore.rs: the only mutating file-system "
         "primitives reachable with a datastore path are remove_file (Datastore::remove) and, in "
@@ -16,7 +16,12 @@ def run(chk, prog):
         "with persist dominated by the Ok edge of the write; no write/create/copy/rename in place; "
         "DatastorePath::path is private to datastore.rs; every document handed to Datastore::create in "
         "lib.rs has passed verify_role on all paths. Hence a crash or failed write leaves either the old "
-        "or the new complete file, both previously verified.")
+        "or the new complete file, both previously verified. R3: a failing read of stored state "
+        "(Datastore::bytes returning Err) always fails the cycle — it is never read as 'nothing "
+        "stored', which would let the cycle overwrite newer trusted documents. R4: stored state is "
+        "unlinked only in load_root and only timestamp.json / snapshot.json (the recovery C14 "
+        "requires); anything else deleted before its replacement exists is protection lost at a "
+        "crash point.")
     chk.not_decided = ["power-loss durability (no fsync; outside the stated fault model)",
                        "behaviour of rename(2) on exotic file systems"]
     chk.assumptions = ["NamedTempFile::persist is an atomic rename within one directory; dropping an unpersisted "
@@ -117,6 +122,8 @@ def run(chk, prog):
                 "the datastore directory path is obtained outside datastore.rs: %s" % outside)
     # who may call create/remove
     r2_create_sites(chk, prog)
+    r3_read_errors(chk, prog)
+    r4_unlink_scope(chk, prog)
 
 
 def r2_create_sites(chk, prog):
@@ -150,3 +157,52 @@ def r2_create_sites(chk, prog):
                         "interrupted cycle could leave state that blocks (or weakens) later cycles",
                         ctx.site(bb), path=ctx.describe_path(p))
     chk.floor("R2", n, 5, "Datastore::create call sites (timestamp, snapshot, targets, delegated, time)")
+
+
+def r3_read_errors(chk, prog):
+    n = 0
+    for b in list(prog.bodies.values()):
+        if not (b.path.startswith("tough::") or b.path.startswith("<tough::")) or "/.cargo/" in b.file:
+            continue
+        if not any(t.is_call_to(BYTES) for _, t in b.calls()):
+            continue
+        ctx = ctx_of(prog, b.path)
+        chk.analysed_body(b)
+        okb = ctx.ok_return_blocks()
+        for k_, (bb, t) in enumerate(sorted(ctx.calls(BYTES), key=lambda x: (x[1].sp["l"], x[1].sp.get("c", 0)))):
+            n += 1
+            name = ctx.const_str_of(t.args[1]) or "#%d" % k_
+            tr = ctx.track_call(bb)
+            neg = tr.neg_edges(0)
+            r = ctx.cfg.reach_from_edges(neg) if neg else set()
+            creates = set(cb for cb, _ in ctx.calls(CREATE))
+            ok = bool(neg) and bool(okb) and not (r & set(okb)) and not (r & creates)
+            chk.require(ok, "R3", ctx.fn, "read-error-fails-the-cycle:" + name,
+                        "an error reading stored trust state is not propagated (it is treated like an absent file, or "
+                        "the function cannot return an error): the cycle would go on without the rollback baseline and "
+                        "replace newer stored documents", ctx.site(bb))
+    chk.floor("R3", n, 2, "Datastore::bytes call sites (stored documents, latest_known_time)")
+
+
+def r4_unlink_scope(chk, prog):
+    n = 0
+    allowed = {"timestamp.json", "snapshot.json"}
+    for b in list(prog.bodies.values()):
+        if not (b.path.startswith("tough::") or b.path.startswith("<tough::")) or "/.cargo/" in b.file:
+            continue
+        if b.path.startswith("tough::datastore::"):
+            continue
+        for bb, t in b.calls():
+            if not t.is_call_to(REMOVE):
+                continue
+            ctx = ctx_of(prog, b.path)
+            chk.analysed_body(b)
+            n += 1
+            names = const_strs_of(ctx, t.args[1])
+            name = "+".join(sorted(names)) if names else None
+            chk.require(root_fn(b.path) == "tough::load_root" and bool(names) and names <= allowed, "R4", ctx.fn,
+                        "unlinks-only-online-role-files:%s" % (name or "non-constant"),
+                        "stored trust state %s is unlinked in %s: only timestamp.json and snapshot.json may be "
+                        "deleted (in load_root, after an online-key rotation); a cycle cut short after the unlink "
+                        "leaves no baseline for that document" % (name or "<non-constant name>", root_fn(b.path)), ctx.site(bb))
+    chk.floor("R4", n, 1, "Datastore::remove call sites")
